@@ -75,6 +75,8 @@ def parse_ops(case):
         elif k == 5: ln, n = 2 + case[pos + 1], 2
         elif k in (6, 7): ln, n = 1, 1
         elif k == 8: ln, n = 2 + 3 + 2 + 9, 1
+        elif k == 9: ln, n = 4, 2
+        elif k == 10: ln, n = 1, 3
         devs.append((case[pos:pos + ln], nt, n)); pos += ln; nt += n
     nops = case[pos]; pos += 1
     ops = []
